@@ -29,7 +29,7 @@ def main(seed, tier):
     t0 = time.time()
     n_iso, bad_iso = iso_probe()
     n_rx, bad_rx, diffs = rx_selftest()
-    specs = [("props.bictasks", "BicTask", (m,)) for m in ("construct", "validate", "is_valid")]
+    specs = [("props.bictasks", "BicTask", (m,)) for m in ("construct", "validate", "is_valid", "from-object")]
     results = common.run_tasks(specs, seed, tier)
     if bad_iso or bad_rx:
         results.append(dict(task="assumption probes", obligations=[], functions={}, files={}, paths=0,
